@@ -69,7 +69,11 @@ func main() {
 				hist.GenOps(r, &c.Case, 4+r.IntN(10), 0, false)
 			}
 			c.Setup = len(c.Ops)
-			hist.GenOps(r, &c.Case, c.Setup+2+r.IntN(7), 0, r.IntN(3) == 0)
+			if i%3 != 0 {
+				hist.GenProgram(r, &c.Case)
+			} else {
+				hist.GenOps(r, &c.Case, c.Setup+2+r.IntN(7), 0, r.IntN(3) == 0)
+			}
 			check(run, c)
 		}
 	})
@@ -448,5 +452,6 @@ func concurrent(run *kit.Run) {
 	run.Count("concurrent_torn_reads", torn.Load())
 	conc.AllowFlip(run)
 	conc.MethodFlip(run)
+	conc.OptionsStar(run)
 }
 
